@@ -5,6 +5,7 @@ Case ops (model side: lean/Driver/C01.lean):
   c01.spec.<k> <obj>             real serialize()                                         vs  Spec.* bytes
   c01.de.<k>   <hex> <pad>       real deserialize(buf, allow_padding)                     vs  Model.deserialize
   c01.cuts.<k> <hex> <pos|*>     real deserialize of buf[:p] for each p (run-length coded)  vs  the same in the model
+  c01.hist.<k> <obj> <variant> <obsA> <obsB>   observer A then observer B on ONE object           vs  stateless model answers
 k ∈ {tx, txm (CMutableTransaction, de/cuts only), hdr, blk}.  Valid encodings handed to de/cuts come from
 `Spec` (asked from the driver while generating), never from the code under test.
 """
@@ -245,6 +246,108 @@ def unrle(s):
     return out
 
 
+# ---- objects with history: every ordered pair of observers on ONE object ------------------------------------
+TX_OBS = ('ser', 'ser0', 'ser1', 'stream', 'stream0', 'hash', 'txid', 'pyh', 'eq', 'weight')
+BLK_OBS = ('ser', 'ser0', 'ser1', 'stream', 'stream0', 'hash', 'pyh', 'eq', 'weight')
+TX_VARIANTS = ('i', 'm', 'di', 'fi')
+BLK_VARIANTS = ('raw', 'de')
+
+
+def hist_domain(prop, tier, opprefix, obs_tx=TX_OBS, obs_blk=BLK_OBS):
+    """[(op, text, variant, obsA, obsB)] — the same list in every shard (generator seeded without the shard
+    number): a few transactions / blocks per witness pattern x every construction x every ordered observer pair"""
+    crng = random.Random('%s:%s:%s:history' % (getattr(prop, 'seed', 0), prop.id, tier))
+    g = Gen(crng, prop.pool)
+    reps = 3 if tier == 'thorough' else 1
+    out = []
+    for _ in range(reps):
+        txs = {}
+        for wp in ('all', 'one', 'empty-stacks', 'none'):
+            t = g.tx('small', wp)
+            if not t['vout']:
+                t['vout'] = [(g.i64(), g.rb(g.small_len()))]
+            txs[wp] = t
+            s = txfmt.show_tx(t)
+            for v in TX_VARIANTS:
+                for a in obs_tx:
+                    for b in obs_tx:
+                        out.append((opprefix + '.hist.tx', s, v, a, b))
+        for name, vtx in (('witness', [txs['none'], txs['all']]), ('no-witness', [txs['none']]),
+                          ('empty-stacks', [txs['empty-stacks'], txs['one']])):
+            s = txfmt.show_block(dict(hdr=g.header(), vtx=vtx))
+            for v in BLK_VARIANTS:
+                for a in obs_blk:
+                    for b in obs_blk:
+                        out.append((opprefix + '.hist.blk', s, v, a, b))
+    return out
+
+
+def hist_build(C, kind, text, variant):
+    if kind == 'tx':
+        t = txfmt.parse_tx(text)
+        if variant == 'i':
+            return txfmt.to_tx(t, False)
+        if variant == 'm':
+            return txfmt.to_tx(t, True)
+        if variant == 'di':
+            return C.CTransaction.deserialize(txfmt.to_tx(t, False).serialize())
+        if variant == 'fi':
+            return C.CTransaction.from_tx(txfmt.to_tx(t, True))
+        raise ValueError(variant)
+    b = txfmt.to_block(txfmt.parse_block(text))
+    if variant == 'de':
+        return C.CBlock.deserialize(b.serialize())
+    return b
+
+
+def hist_observe(C, kind, text, variant, o, name):
+    import io
+    def run():
+        if name == 'ser':
+            return bytes(o.serialize()).hex()
+        if name == 'ser0':
+            return bytes(o.serialize(dict(include_witness=False))).hex()
+        if name == 'ser1':
+            return bytes(o.serialize(dict(include_witness=True))).hex()
+        if name == 'stream':
+            f = io.BytesIO()
+            o.stream_serialize(f)
+            return f.getvalue().hex()
+        if name == 'stream0':
+            f = io.BytesIO()
+            o.stream_serialize(f, include_witness=False)
+            return f.getvalue().hex()
+        if name == 'hash':
+            return bytes(o.GetHash()).hex()
+        if name == 'txid':
+            return bytes(o.GetTxid()).hex()
+        if name == 'pyh':
+            twin = hist_build(C, kind, text, 'i' if kind == 'tx' else 'raw')      # a fresh object every time
+            return str(int(hash(o) == hash(twin.serialize())))
+        if name == 'eq':
+            twin = hist_build(C, kind, text, 'i' if kind == 'tx' else 'raw')
+            return str(int((o == twin) and (twin == o) and not (o != twin)))
+        if name == 'weight':
+            return str(o.calc_weight() if kind == 'tx' else o.GetWeight())
+        raise ValueError(name)
+    try:
+        return run()
+    except RecursionError:
+        return 'err:py:RecursionError'
+    except Exception as e:  # noqa: BLE001
+        return 'err:' + exc_family(e)
+
+
+def hist_impl(C, op, args):
+    """apply observer A, then observer B, to one and the same object; both answers"""
+    kind = op.split('.')[2]
+    text, variant, a, b = args
+    o = hist_build(C, kind, text, variant)
+    ra = hist_observe(C, kind, text, variant, o, a)
+    rb = hist_observe(C, kind, text, variant, o, b)
+    return ra + '|' + rb
+
+
 class C01(Prop):
     id = 'C01'
     title = 'Transaction/block wire format: exact bytes, lossless round trip, clean errors'
@@ -254,7 +357,8 @@ class C01(Prop):
         'ser_eq_spec', 'ser_stripped_eq_spec', 'serHeader_eq_spec', 'serBlock_eq_spec', 'header_length',
         'hasWitness_iff', 'isNull_mirror_iff', 'marker_iff', 'de_ser', 'de_ser_mutable', 'mutableDefaultWit_fields',
         'mutable_prefix_trunc', 'mutable_extra_data',
-        'deTx_total', 'deTxMutable_total', 'deHeader_total', 'deBlock_total', 'deserialize_total', 'normTx_fields', 'deHeader_ser', 'deBlock_ser',
+        'deTx_total', 'deTxMutable_total', 'deHeader_total', 'deBlock_total', 'deserialize_total',
+        'varint_ser', 'varint_roundtrip', 'varint_de_total', 'normTx_fields', 'deHeader_ser', 'deBlock_ser',
         'exact_ok', 'prefix_trunc', 'extra_data', 'padding_allowed',
         'header_exact_ok', 'header_prefix_trunc', 'header_extra_data', 'header_padding_allowed',
         'block_exact_ok', 'block_prefix_trunc', 'block_extra_data', 'block_padding_allowed',
@@ -301,7 +405,10 @@ class C01(Prop):
             'mutable witness; per object: serialise (immutable, mutable, copies) vs Model and vs Spec, deserialise Spec '
             'bytes with both classes and both allow_padding values, every strict prefix when ≤ 600 bytes else every field '
             'edge ±1 (sampled above 160 positions), extensions by 1, 2, 33 bytes; headers; blocks of 0..n transactions; '
-            'MAX_SIZE guard probes; mutated streams. One cuts case evaluates up to 600 prefixes. Non-trivial = not the '
+            'MAX_SIZE guard probes; mutated streams; objects with history: every ordered pair of the observers serialize() / '
+            'serialize(include_witness=False|True) / stream_serialize (both forms) / GetHash / GetTxid / hash() / == / '
+            'calc_weight|GetWeight applied to ONE object, for 4 witness patterns x 4 constructions of a transaction and 3 blocks '
+            'x 2 constructions (exhaustive matrix, stateless model answers). One cuts case evaluates up to 600 prefixes. Non-trivial = not the '
             'default-constructed object; distinct by canonical request line')
 
     # ------------------------------------------------------------------------------------------
@@ -327,6 +434,11 @@ class C01(Prop):
         if shard == 0:
             yield from self.fixed_cases()
         yield from self.maxsize_probes(rng, shard, nshards)
+        yield from self.varint_cases(tier, shard, nshards)
+        # objects with history: exhaustive observer-pair matrix, a fixed list partitioned by index
+        for j, (op, text, v, a, b) in enumerate(hist_domain(self, tier, 'c01')):
+            if j % nshards == shard:
+                yield mk(op, text, v, a, b, tag='hist:%s:%s>%s' % (v, a, b))
         # systematic part: every length of the pool in every slot, every count in every slot, every witness pattern.
         # The list is computed identically in every shard (shard-independent rng) and THEN partitioned by index.
         sysobjs = [self.directed(g, wp, (kind, which, val))
@@ -423,6 +535,44 @@ class C01(Prop):
     def fixed_cases(self):
         yield mk('c01.ser.tx', DEFAULT_TX, 'i', tag='default')
         yield mk('c01.spec.tx', DEFAULT_TX, tag='default')
+
+    def varint_domain(self, tier):
+        """(op, arg) for VarIntSerializer on its own — a fixed list (common rng), partitioned by index by the caller.
+        write side: every form boundary ±1 incl. 2^32−1 / 2^32 (0xff form), 2^64−1 / 2^64 (struct.error), negatives
+        (ValueError); read side: every first byte x every tail length 0..9 x fill patterns (canonical and
+        non-canonical encodings, truncations at every position)"""
+        crng = random.Random('%s:%s:%s:varint' % (getattr(self, 'seed', 0), self.id, tier))
+        ints = {-2 ** 63, -256, -2, -1, 0, 1, 2 ** 63, 2 ** 100}
+        for b in (0xfd, 0x100, 0xffff, 0x10000, 2 ** 31, 2 ** 32, 2 ** 64):
+            ints |= {b - 2, b - 1, b, b + 1}
+        ints |= {v for v in self.pool if -4 <= v <= 2 ** 64 + 4}
+        ints |= {crng.randrange(2 ** k) for k in (8, 16, 24, 32, 33, 48, 63, 64, 65) for _ in range(20 if tier == 'thorough' else 3)}
+        out = []
+        for i in sorted(ints):
+            out.append(('c01.varint.ser', str(i)))
+            if 0 <= i < 2 ** 64:
+                out.append(('c01.varint.spec', str(i)))
+            if 0 <= i < 2 ** 64:
+                out.append(('c01.varint.rt', str(i)))
+        fills = (b'\x00', b'\xff', b'\x01', None)
+        for first in range(256):
+            for n in range(10):
+                for fill in fills if (first >= 0xfc or tier == 'thorough') else fills[:1]:
+                    if first < 0xfc and n > 2:
+                        continue
+                    tail = crng.randbytes(n) if fill is None else fill * n
+                    out.append(('c01.varint.de', (bytes([first]) + tail).hex()))
+        # non-canonical encodings of small values in every wider form, with trailing data
+        for v in (0, 1, 0xfc, 0xfd, 0xffff, 0x10000, 0xffffffff):
+            for w, tag in ((2, 0xfd), (4, 0xfe), (8, 0xff)):
+                if v < 256 ** w:
+                    out.append(('c01.varint.de', (bytes([tag]) + v.to_bytes(w, 'little') + b'\xaa\xbb').hex()))
+        return list(dict.fromkeys(out))          # no duplicates (e.g. the empty tail of every fill pattern)
+
+    def varint_cases(self, tier, shard, nshards):
+        for j, (op, arg) in enumerate(self.varint_domain(tier)):
+            if j % nshards == shard:
+                yield mk(op, arg, tag='varint')
 
     def maxsize_domain(self):
         ns = sorted({MAX_SIZE - 1, MAX_SIZE, MAX_SIZE + 1, 0xffffffff, 0x100000000, 2 ** 64 - 1} |
@@ -628,6 +778,10 @@ class C01(Prop):
     def impl(self, c):
         op, a = c['op'], c['args']
         _, what, kind = op.split('.')
+        if what == 'varint':
+            return self.varint_impl(kind, a[0])
+        if what == 'hist':
+            return hist_impl(self.C, op, a)
         if what in ('ser', 'spec'):
             variant = a[1] if len(a) > 1 else ('raw' if kind == 'blk' else 'i')
             try:
@@ -642,10 +796,32 @@ class C01(Prop):
             return rle((p, self.de(kind, buf[:p], False)) for p in pos)
         raise ValueError(op)
 
+    def varint_impl(self, kind, arg):
+        import io
+        V = self.S.VarIntSerializer
+        try:
+            if kind in ('ser', 'spec'):
+                f = io.BytesIO()
+                V.stream_serialize(int(arg), f)
+                if f.getvalue() != V.serialize(int(arg)):
+                    return 'inconsistent:serialize-vs-stream'
+                return f.getvalue().hex()
+            if kind == 'rt':
+                f = io.BytesIO(V.serialize(int(arg)) + b'\x5a')
+                v = V.stream_deserialize(f)
+                return '%d:%s' % (v, f.read().hex())
+            f = io.BytesIO(bytes.fromhex(arg))
+            v = V.stream_deserialize(f)
+            return '%d:%s' % (v, f.read().hex())
+        except Exception as e:  # noqa: BLE001
+            return 'err:' + exc_family(e)
+
     def model_line(self, c):
         op, a = c['op'], c['args']
         if op.startswith('c01.ser.') or op.startswith('c01.spec.'):
             return op + '\t' + a[0]
+        if op.startswith('c01.hist.'):
+            return '\t'.join([op, a[0], a[2], a[3]])
         return c.line
 
     def nontrivial(self, c, io):
@@ -656,6 +832,12 @@ class C01(Prop):
         op, a = c['op'], c['args']
         _, what, kind = op.split('.')
         tag = c.get('tag', '')
+        if what == 'hist':
+            if kind == 'tx':
+                for t2 in shrink_tx(txfmt.parse_tx(a[0])):
+                    if t2['vout']:
+                        yield mk(op, txfmt.show_tx(t2), *a[1:], tag=tag)
+            return
         if what == 'cuts':
             # reduce to the first prefix on which the two sides differ
             io = self.impl(c)
